@@ -143,6 +143,27 @@ Proof.
   exists s', e'. split; [done|]. split; [done|]. rewrite Hedges, norm_rule_id by done. by destruct rx.
 Qed.
 
+(** a printed line carries its rule in the suffix: parse_rxns does not fall back to its default rule *)
+Lemma suffix_rule_line ii e rx : rxn_ok rx → suffix_rule (of_chars (line_chars ii e rx)) = Some (to_chars (r_rule rx)).
+Proof.
+  intros (Hrule & Hl & Hr & Hem).
+  pose proof (side_chars_bar_gt_free _ Hl) as HLf. pose proof (side_chars_bar_gt_free _ Hr) as HRf.
+  unfold suffix_rule. rewrite to_of_chars. cbv zeta.
+  set (X := side_chars (r_lhs rx) ++ arrow_sep ++ side_chars (r_rhs rx)).
+  assert (line_chars ii e rx = (X ++ [" "%char]) ++ "|"%char :: ([" "%char] ++ to_chars "rule=" ++ to_chars (r_rule rx) ++ id_tail ii e)) as ->.
+  { unfold line_chars, X. rewrite <-!(assoc_L (++)). done. }
+  rewrite bool_decide_eq_true_2 by (apply elem_of_app; right; left).
+  rewrite split_first_app; [| |done].
+  2:{ unfold X. rewrite !Forall_app. split_and!.
+      - eapply Forall_impl; [exact HLf|]. by intros a [? _].
+      - by repeat constructor.
+      - eapply Forall_impl; [exact HRf|]. by intros a [? _].
+      - by repeat constructor. }
+  cbn [snd]. by apply rule_search_meta.
+Qed.
+Lemma rule_or_default_line ii e rx dr : rxn_ok rx → rule_or_default (of_chars (line_chars ii e rx)) dr = None.
+Proof. intros Hok. unfold rule_or_default. by rewrite (suffix_rule_line ii e rx Hok). Qed.
+
 (** * the whole network *)
 Lemma parse_printed_items ii (items : list (string * rxn)) : Forall (λ p, rxn_ok p.2) items → ∀ s dr pf,
   ∃ s', parse_rxns s ((λ p, of_chars (line_chars ii p.1 p.2)) <$> items) dr true pf = (s', None) ∧
@@ -151,7 +172,8 @@ Proof.
   induction 1 as [|[e rx] items Hok _ IH]; intros s dr pf.
   - exists s. done.
   - unfold parse_rxns. cbn [fmap list_fmap foldl].
-    destruct (add_from_str_line s ii e rx Hok) as (s1 & e1 & Hadd & Hfresh & Hedges). cbn [fst snd]. rewrite Hadd.
+    destruct (add_from_str_line s ii e rx Hok) as (s1 & e1 & Hadd & Hfresh & Hedges). cbn [fst snd].
+    rewrite (rule_or_default_line ii e rx dr Hok), Hadd.
     destruct (IH s1 dr pf) as (s' & Hparse & Hperm). exists s'. split; [exact Hparse|].
     rewrite Hperm. unfold rxns_of at 1. rewrite Hedges, map_to_list_insert by done. simpl.
     unfold rxns_of. by rewrite Permutation_middle.
